@@ -90,3 +90,8 @@ Theorem C10_plate_to_plate_reported_volume : forall cf ps rs pd rd q ps' pd' pr,
   plate_get_volume cf ps' pr + plate_get_volume cf pd' pr == plate_get_volume cf ps pr + plate_get_volume cf pd pr.
 Proof. exact p_to_p_reported_volume. Qed.
 Print Assumptions C10_plate_to_plate_reported_volume.
+(* source and destination on the same plate: the plate reports the same total afterwards *)
+Theorem C10_same_plate_reported_volume : forall cf p rs rd q p' pr,
+  PInv cf p -> p_to_p_same cf p rs rd q = Ok p' -> plate_get_volume cf p' pr == plate_get_volume cf p pr.
+Proof. exact p_to_p_same_reported_volume. Qed.
+Print Assumptions C10_same_plate_reported_volume.
